@@ -2,7 +2,7 @@
    strings contain (within the character classes the validators admit); the structural rules (contexts, arities,
    uniqueness, definedness) are decided per generated file set by ngx/Wf.v on the real generator's output. *)
 From Coq Require Import List String Ascii Bool.
-From NGF Require Import lib.Str ngx.Lexer ngx.Tmpl ngx.SymLex ngx.SymLexProofs ngx.TmplProofs ngx.TmplTheorems.
+From NGF Require Import lib.Str ngx.Lexer ngx.Tmpl ngx.SymLex ngx.SymLexProofs ngx.TmplProofs ngx.TmplTheorems C03.Overlap C03.OverlapProofs.
 Import ListNotations.
 
 (* The text/template engine (model of the subset the repository's templates use; the parse trees are regenerated from
@@ -39,3 +39,40 @@ Theorem C03_fragment_valid_for_all_contents :
       | _, _ => False
       end.
 Proof. exact template_skeleton_independent. Qed.
+
+(* ---- no location collects the include files of policies by accident (model of checkTargetRoutesForOverlap, C03/Overlap.v; compared
+   with the real BuildGraph on every run). A location is (hostname, port of the listener, path); [keys ls r] are the locations Route r
+   has a match on. If a policy passed the check and targets a Route with a match on location k, it targets EVERY Route with a match on
+   k - for all listeners, bindings, paths and policies. *)
+Theorem C03_policy_reaches_a_location_only_with_all_its_routes :
+  forall ls routes p k t r,
+    overlap_free ls routes p = true -> In t routes -> In r routes -> targets_route p t = true ->
+    In k (keys ls t) -> In k (keys ls r) -> targets_route p r = true.
+Proof. exact location_routes_all_targeted. Qed.
+
+(* Two policies that both reach a location therefore both target every Route of it: they share a target, which is exactly when conflict
+   resolution between policies of one kind applies (C14_policy_survivors_do_not_conflict): two policy files in one location never repeat
+   a directive. *)
+Theorem C03_policies_in_one_location_share_every_route :
+  forall ls routes p q k tp tq,
+    overlap_free ls routes p = true -> overlap_free ls routes q = true ->
+    In tp routes -> In tq routes -> targets_route p tp = true -> targets_route q tq = true ->
+    In k (keys ls tp) -> In k (keys ls tq) ->
+    forall r, In r routes -> In k (keys ls r) -> targets_route p r = true /\ targets_route q r = true.
+Proof. exact policies_of_a_location_share_every_route. Qed.
+
+(* The two computations of the location keys the code used before the repairs of D42 (the list of hostnames formatted as one) and D44
+   (one port per parentRef) admit two policies with different targets into one location. *)
+Theorem C03_listwise_hostname_keys_refuted :
+  exists ls routes p q k tp tq,
+    overlap_free_with (keys_listwise ls) routes p = true /\ overlap_free_with (keys_listwise ls) routes q = true /\
+    In tp routes /\ In tq routes /\ targets_route p tp = true /\ targets_route q tq = true /\
+    In k (keys ls tp) /\ In k (keys ls tq) /\ targets_route p tq = false.
+Proof. exact listwise_keys_refuted. Qed.
+
+Theorem C03_one_port_per_parentref_keys_refuted :
+  exists ls routes p q k tp tq,
+    overlap_free_with (keys_one_port ls) routes p = true /\ overlap_free_with (keys_one_port ls) routes q = true /\
+    In tp routes /\ In tq routes /\ targets_route p tp = true /\ targets_route q tq = true /\
+    In k (keys ls tp) /\ In k (keys ls tq) /\ targets_route p tq = false.
+Proof. exact one_port_keys_refuted. Qed.
